@@ -19,4 +19,4 @@ Task: produce {n} different, independent code changes (each as its own patch aga
 
 First make sure the behaviour you are about to break is actually correct at HEAD (the demonstration must PASS at HEAD): the code base has known defects; do not build a change on top of behaviour that is already broken.
 
-For each change i in 1..{n} create directory {wt}/out/<i>/ containing: `patch.diff` (output of `git diff` for that change alone; must apply cleanly to HEAD with `git apply`), a demonstration (either a Go test file `demo_test.go` to be copied into a package directory, or a script `demo.php`/`demo.zy` plus a small shell script `demo.sh` that exits non-zero when the property is violated) that FAILS with the change applied and PASSES without it, and `meta.json` with fields: property (\"{pid}\"), summary, what_it_needs_to_manifest, files_touched, and demo = {{\"copy\": {{\"<file in out/i>\": \"<destination path relative to the tree root>\"}}, \"cmd\": \"<one shell command, run at the tree root after copying, that exits 0 when the property holds and non-zero when it is violated; it may build and run the interpreter, e.g. go run . path/to/demo.php | diff - expected.txt>\"}}. Verify (a), (b) and the demo fails-with / passes-without yourself by actually running the commands. Leave the worktree at clean HEAD when you finish (git checkout -- . ; remove copied demo files), keeping only the untracked out/ directory. Final message: a short list of the changes, what each needs to manifest, and confirmation of what you ran.""")
+For each change i in 1..{n} create directory {wt}/out/<i>/ containing: `patch.diff` (output of `git diff` for that change alone; must apply cleanly to HEAD with `git apply`), a demonstration (either a Go test file `demo_test.go` to be copied into a package directory, or a script `demo.php`/`demo.zy` plus a small shell script `demo.sh` that exits non-zero when the property is violated) that FAILS with the change applied and PASSES without it, and `meta.json` with fields: property (\"{pid}\"), summary, what_it_needs_to_manifest, files_touched, and demo = {{\"copy\": {{\"<file in out/i>\": \"<destination path relative to the tree root>\"}}, \"cmd\": \"<one shell command, run at the tree root after copying, that exits 0 when the property holds and non-zero when it is violated; it may build and run the interpreter, e.g. go run . path/to/demo.php | diff - expected.txt>\"}}. Verify (a), (b) and the demo fails-with / passes-without yourself by actually running the commands. NEVER use `git stash` (the stash is shared by all worktrees of the repository and other agents are working in sibling worktrees): to set a change aside use `git diff > /tmp/seed-{pid}-<n>.diff; git checkout -- .` and `git apply` it back later. If you put Go test files under out/, add out/go.mod (module seedout) so the root `go build ./...` / `go test ./...` ignore them. Leave the worktree at clean HEAD when you finish (git checkout -- . ; remove copied demo files), keeping only the untracked out/ directory. Final message: a short list of the changes, what each needs to manifest, and confirmation of what you ran.""")
